@@ -199,8 +199,14 @@ func (r *Raft) takeSnapshot() (string, error) {
 		return "", fmt.Errorf("failed to close snapshot: %v", err)
 	}
 
-	// Update the last stable snapshot info.
-	r.setLastSnapshot(snapReq.index, snapReq.term)
+	// Update the last stable snapshot info. This runs on the snapshot goroutine,
+	// concurrently with the main loop: if an InstallSnapshot (or a user restore)
+	// has recorded a newer snapshot since the FSM handed us this one, keep the
+	// newer one. Moving the last snapshot backwards would put it below the
+	// applied index and below log entries that have already been compacted.
+	if !r.advanceLastSnapshot(snapReq.index, snapReq.term) {
+		r.logger.Info("snapshot is older than the last snapshot recorded meanwhile", "index", snapReq.index)
+	}
 
 	// Compact the logs.
 	if err := r.compactLogs(snapReq.index); err != nil {
